@@ -6,6 +6,9 @@ Cases
         first) of s, s+1, ..., s+k-1  (exhaustive enumerations are cut into such blocks)
   {"kind": "mat", "rows": [[entry, ...], ...]}        one explicit matrix
   {"kind": "malformed", "rows": []}                   the empty matrix (both sides must reject)
+  {"kind": "hist", "mats": [rows, rows, ...]}         a HISTORY: the matrices are factorised one after the other in
+        one process (module state, if any, survives from call to call); every result is judged against the input
+        of ITS call, and once more after the last call (a later call must not alter an earlier result)
 entry = "p/q" (a Fraction) or "p/q*sym" (the tuple (Fraction(p, q), "sym")).
 
 Tie: the triple (Op_l, reduced, Op_r) returned by the real code is flattened to a list of integers
@@ -43,6 +46,32 @@ SUB5 = [["0", "1", "-1", "1*a", "1*b"], ["0", "1", "2", "1*a", "2*a"], ["0", "2"
 SUB3 = [["0", "1", "1*a"], ["0", "1*a", "1*b"], ["0", "1*a", "2*a"], ["0", "1", "2"], ["0", "-1", "1*b"]]
 SUB4 = [["0", "1", "1*a", "1*b"], ["0", "1", "2", "1*a"], ["0", "1", "1*a", "2*a"], ["0", "1", "-1", "2"],
         ["0", "1/2", "1*a", "-1/3*b"]]
+
+
+# histories: alphabet with more negative coefficients, and "hash twins": pairs of DISTINCT rationals that Python's
+# hash() does not tell apart (hash(-1) == hash(-2); hash(q) == hash(q + (2**61 - 1)) because numeric hashes are
+# reduced modulo the Mersenne prime 2**61 - 1). They are ordinary members of "rationals or rational multiples of one
+# symbol"; a history visits a matrix and then its twin(s).
+P61 = 2 ** 61 - 1
+HIST = FULL + EXTRA + ["-2", "-2*a", "-1*a", "-2*c", "-1/2", "-2*b"]
+H1 = ["0", "1", "-1", "-2", "2", "1/2", "-1/2", "1*a", "-1*a", "-2*a", "2*a", "1*b", "-2*b",
+      str(P61), str(P61 + 1), str(-1 - P61), f"{P61 + 1}*a", f"{-1 - P61}*a"]
+H2 = ["0", "1", "-1", "-2", "2", "1*a", "-1*a", "-2*a", "1*b"]
+H4 = ["0", "-1", "-2", "1*a", "-1*a", "-2*a"]
+
+
+def hash_twin(e):
+    """A different entry of the same kind (same symbol) with the same Python hash."""
+    co = Fraction(e[0] if isinstance(e, tuple) else e)
+    if co == -1:
+        t = Fraction(-2)
+    elif co == -2:
+        t = Fraction(-1)
+    elif co >= 0:
+        t = co + P61
+    else:
+        t = co - P61
+    return (t, e[1]) if isinstance(e, tuple) else t
 
 
 # fixed cases: the matrices of tests/test_gaussian_elimination.py and a few corner cases
@@ -105,6 +134,8 @@ def case_matrices(case):
     if case["kind"] == "block":
         alph = [parse_entry(s) for s in case["alph"]]
         return [decode(alph, case["r"], case["c"], case["start"] + k) for k in range(case["count"])]
+    if case["kind"] == "hist":
+        return [[[parse_entry(s) for s in row] for row in rows] for rows in case["mats"]]
     return [[[parse_entry(s) for s in row] for row in case["rows"]]]
 
 
@@ -303,26 +334,48 @@ def run_case(case):
         except Exception as e:  # noqa
             encs.append("EXC " + type(e).__name__)
         return {"enc": encs, "viol": None}
+    hist = case["kind"] == "hist"
+    kept = []
     for idx, M in enumerate(case_matrices(case)):
         M0 = copy.deepcopy(M)
         try:
             res = ge(M)
         except Exception as e:  # noqa
             res = e
-        if isinstance(res, BaseException):
-            encs.append("EXC " + type(res).__name__ + ": " + str(res)[:80])
-        else:
-            try:
-                encs.append(out_result(res))
-            except BadType as e:
-                encs.append("BADTYPE " + str(e))
-            except Exception as e:  # noqa
-                encs.append("UNENCODABLE " + repr(e)[:80])
+        encs.append(_enc_or_text(res))
+        if hist:
+            kept.append((M0, res))
         if viol is None:
             w = oracle_one(M0, res)
             if w:
-                viol = [idx, w + " for input " + str([[entry_str(x) for x in r] for r in M0])]
+                viol = [idx, w + " for input " + _mat_str(M0)
+                        + (f" (call {idx + 1} of a history of {len(case['mats'])} calls in one process)" if hist else "")]
+    if hist and viol is None:
+        # the caller still holds the earlier results: they must still be factorisations of their inputs
+        for idx, (M0, res) in enumerate(kept):
+            w = oracle_one(M0, res)
+            if w is None and _enc_or_text(res) != encs[idx]:
+                w = f"the result changed from {dec_result(encs[idx])} to {dec_result(_enc_or_text(res))}"
+            if w:
+                viol = [idx, f"after the later calls of the history, the result of call {idx + 1} is no longer what was "
+                             f"returned / no longer a factorisation: {w} for input {_mat_str(M0)}"]
+                break
     return {"enc": encs, "viol": viol}
+
+
+def _mat_str(M):
+    return str([[entry_str(x) for x in r] for r in M])
+
+
+def _enc_or_text(res):
+    if isinstance(res, BaseException):
+        return "EXC " + type(res).__name__ + ": " + str(res)[:80]
+    try:
+        return out_result(res)
+    except BadType as e:
+        return "BADTYPE " + str(e)
+    except Exception as e:  # noqa
+        return "UNENCODABLE " + repr(e)[:80]
 
 
 def _run_case_safe(case):
@@ -334,7 +387,30 @@ def _run_case_safe(case):
 
 
 def n_matrices(case):
+    if case["kind"] == "hist":
+        return len(case["mats"])
     return case["count"] if case["kind"] == "block" else 1
+
+
+_FRESH_CODE = ("import sys, json\nsys.path.insert(0, sys.argv[1])\nimport props.c13 as m\n"
+               "ob = m._run_case_safe(json.load(sys.stdin))\nprint('FRESH ' + json.dumps(ob.get('viol')))\n")
+
+
+def fresh_viol(case, timeout=600):
+    """The observation's `viol` of `case` evaluated in a NEW interpreter (no state left over from earlier
+    calls in this process); None when it passes there or cannot be evaluated."""
+    import json
+    import sys
+    harness = os.path.dirname(os.path.dirname(os.path.abspath(__file__)))
+    try:
+        p = subprocess.run([sys.executable, "-W", "ignore", "-c", _FRESH_CODE, harness], input=json.dumps(case),
+                           capture_output=True, text=True, timeout=timeout)
+        for line in p.stdout.splitlines():
+            if line.startswith("FRESH "):
+                return json.loads(line[6:])
+    except Exception:  # noqa
+        pass
+    return None
 
 
 # ------------------------------------------------------------------------------------------
@@ -447,8 +523,15 @@ class C13(Prop):
             "thorough: also 1x4, 4x1, 2x3, 3x2 over the full alphabet and 3x3 over a seed-rotated 4-letter sub-alphabet; "
             "random full-alphabet 3x3 blocks; random matrices up to 6x6 over a wider alphabet with zero rows/columns, "
             "parallel rows/columns and rank-deficient numeric blocks; the empty matrix as malformed input. "
-            "non-trivial = at least 2 entries; distinct by case content. One case = one block or one matrix; the number of "
-            "matrices is in coverage.distribution.matrices")
+            "HISTORIES (several calls in one process, each result judged against the input of its own call and again after the "
+            "last call): sweeps through all 1x1 matrices over an 18-letter alphabet and all 1x2 / 2x1 matrices over a 9-letter "
+            "alphabet (with -1, -2, their symbol multiples and rationals q, q + 2^61 - 1), forward then backward so that every "
+            "ordered pair of distinct matrices occurs (thorough: also 2x2, 1x3, 3x1 over 6 letters); random histories of 3..7 "
+            "related matrices up to 5x5: the same matrix again, 1-2 entries changed, entries replaced by hash twins (distinct "
+            "rationals with equal Python hash: -1/-2, q/q +- (2^61-1)), scaled or swapped lines, the transpose, an earlier "
+            "member again. "
+            "non-trivial = at least 2 entries; distinct by case content. One case = one block, one matrix or one history; the number of "
+            "matrices (calls) is in coverage.distribution.matrices")
     clauses = [
         ("F", "every non-empty rectangular matrix (all sizes): gaussian_elimination returns (fuel of the three while loops suffices, "
               "the matrix never becomes empty), shapes L m x m', M' m' x n', R n' x n with 1 <= m' <= m, 1 <= n' <= n, and "
@@ -457,7 +540,9 @@ class C13(Prop):
               "non-zero coefficients preserved: C13_entries_single_symbol)"),
         ("F", "each primitive preserves L*M*R as coefficient functions: row_add/col_add incl. the incompatible-symbols no-op branch, "
               "row/column swaps, deletion of zero rows/columns, are_parallel_* soundness, deparallelize_rows/cols (C13_*_product, C13_parallel_*_sound)"),
-        ("V", "the Gallina model equals the Python code: exact comparison of (Op_l, reduced, Op_r) on the exhaustive and random inputs of this run"),
+        ("V", "the Gallina model equals the Python code: exact comparison of (Op_l, reduced, Op_r) on the exhaustive and random inputs of this run; "
+              "in a history every call is compared with the (pure) model applied to the matrix of that call, i.e. the result may not "
+              "depend on earlier calls"),
     ]
     trusted_base = ["entry representation: Python Fraction / int 0 <-> Num q, tuple (Fraction, str) <-> Sym q s with symbols numbered by harness/props/c13.py",
                     "`for z in sorted(Z, reverse=True): del x[z]` is modelled as dropping the positions in Z (equal because Z is duplicate-free by construction of the loops)",
@@ -479,10 +564,12 @@ class C13(Prop):
         return out
 
     @staticmethod
-    def _random_matrix(rng, maxdim=6):
+    def _random_matrix(rng, maxdim=6, alph=None):
         r = rng.randrange(1, maxdim + 1)
         c = rng.randrange(1, maxdim + 1)
         al = [parse_entry(s) for s in (FULL if rng.random() < 0.5 else FULL + EXTRA)]
+        if alph is not None:
+            al = [parse_entry(s) for s in alph]
         numeric = [e for e in al if not isinstance(e, tuple)]
         p = rng.choice([0.3, 0.6, 0.9])
         mode = rng.random()
@@ -523,6 +610,94 @@ class C13(Prop):
                 row[j] = Fraction(0)
         return {"kind": "mat", "rows": [[entry_str(e) for e in row] for row in M]}
 
+    # ------------------------------------------------------------------ histories
+    @staticmethod
+    def _hist_case(mats):
+        return {"kind": "hist", "mats": [[[entry_str(e) for e in row] for row in M] for M in mats]}
+
+    @staticmethod
+    def _sweep_history(alph, r, c, rng=None):
+        """All r x c matrices over `alph`, once in enumeration (or shuffled) order and once in the reverse
+        order: every ORDERED pair (A factorised at some time before B) of distinct matrices occurs."""
+        al = [parse_entry(s) for s in alph]
+        mats = [decode(al, r, c, k) for k in range(len(al) ** (r * c))]
+        if rng is not None:
+            rng.shuffle(mats)
+        return C13._hist_case(mats + mats[::-1])
+
+    @staticmethod
+    def _random_history(rng):
+        """A base matrix followed by 2..6 relatives: the same again, single-entry edits, hash twins, scaled or
+        permuted lines, the transpose, or an earlier member again."""
+        al = [parse_entry(s) for s in HIST]
+        base = C13._random_matrix(rng, maxdim=rng.choice([2, 3, 4, 5]), alph=HIST)
+        cur = [[parse_entry(s) for s in row] for row in base["rows"]]
+        mats = [cur]
+
+        def scale(e, f):
+            return (f * e[0], e[1]) if isinstance(e, tuple) else f * e
+        fs = [Fraction(2), Fraction(-1), Fraction(1, 2), Fraction(-2), Fraction(3)]
+        for _ in range(rng.randrange(2, 7)):
+            M = copy.deepcopy(cur)
+            r, c = len(M), len(M[0])
+            kind = rng.choice(["same", "entry", "entry", "twin", "twin", "scale", "perm", "transpose", "back"])
+            if kind == "entry":
+                for _ in range(rng.randrange(1, 3)):
+                    M[rng.randrange(r)][rng.randrange(c)] = rng.choice(al)
+            elif kind == "twin":
+                pos = [(i, j) for i in range(r) for j in range(c)]
+                nz = [(i, j) for (i, j) in pos if M[i][j] != 0]
+                pick = [q for q in pos if rng.random() < (0.5 if M[q[0]][q[1]] != 0 else 0.1)]
+                if not pick:
+                    pick = [rng.choice(nz or pos)]
+                for (i, j) in pick:
+                    M[i][j] = hash_twin(M[i][j])
+            elif kind == "scale":
+                f = rng.choice(fs)
+                w = rng.random()
+                if w < 0.4:
+                    i = rng.randrange(r)
+                    M[i] = [scale(e, f) for e in M[i]]
+                elif w < 0.8:
+                    j = rng.randrange(c)
+                    for row in M:
+                        row[j] = scale(row[j], f)
+                else:
+                    M = [[scale(e, f) for e in row] for row in M]
+            elif kind == "perm":
+                if r > 1 and (c == 1 or rng.random() < 0.5):
+                    i, j = rng.sample(range(r), 2)
+                    M[i], M[j] = M[j], M[i]
+                elif c > 1:
+                    i, j = rng.sample(range(c), 2)
+                    for row in M:
+                        row[i], row[j] = row[j], row[i]
+            elif kind == "transpose":
+                M = [list(col) for col in zip(*M)]
+            elif kind == "back":
+                M = copy.deepcopy(rng.choice(mats))
+            mats.append(M)
+            cur = M
+        return C13._hist_case(mats)
+
+    def _histories(self, ctx, stream, budget_scale):
+        rng = ctx.rng(stream + "/hist")
+        cases = []
+        if stream == "main":
+            cases.append(self._sweep_history(H1, 1, 1))
+            cases.append(self._sweep_history(H2, 1, 2))
+            cases.append(self._sweep_history(H2, 2, 1))
+            if ctx.thorough():
+                cases.append(self._sweep_history(H4, 2, 2))
+                cases.append(self._sweep_history(H4, 1, 3, rng))
+                cases.append(self._sweep_history(H4, 3, 1, rng))
+        else:
+            cases.append(self._sweep_history(H1, 1, 1, rng))
+            cases.append(self._sweep_history(H2, 1, 2, rng))
+        for _ in range(ctx.scale(150, 3000) * budget_scale):
+            cases.append(self._random_history(rng))
+        return cases
+
     def generate(self, ctx, stream, budget_scale=1):
         rng = ctx.rng(stream)
         cases = []
@@ -553,13 +728,19 @@ class C13(Prop):
         nm = ctx.scale(1500, 20000) * budget_scale
         for _ in range(nm):
             cases.append(self._random_matrix(rng))
-        return cases
+        # histories use their own random stream: the cases above are the same as before for a given seed
+        hist = self._histories(ctx, stream, budget_scale)
+        if stream == "main":
+            return cases + hist
+        return hist + cases       # failing-input search: the cheap histories first
 
     def nontrivial(self, case):
         if case["kind"] == "block":
             return case["r"] * case["c"] >= 2
         if case["kind"] == "mat":
             return sum(len(r) for r in case["rows"]) >= 2
+        if case["kind"] == "hist":
+            return len(case["mats"]) >= 2
         return False
 
     def distribution(self, cases):
@@ -572,6 +753,25 @@ class C13(Prop):
             elif x["kind"] == "mat":
                 c[f"random {len(x['rows'])}x{len(x['rows'][0])}"] += 1
                 c["matrices"] += 1
+            elif x["kind"] == "hist":
+                n = len(x["mats"])
+                c["history/sweeps (all matrices of a shape, forward then backward)" if n > 12 else "history/random relatives"] += 1
+                c["history/calls"] += n
+                c["matrices"] += n
+                ms = x["mats"]
+                for a, b in zip(ms, ms[1:]):
+                    if a == b:
+                        c["history/step same matrix again"] += 1
+                    elif len(a) == len(b) and len(a[0]) == len(b[0]):
+                        d = [(p, q) for ra, rb in zip(a, b) for p, q in zip(ra, rb) if p != q]
+                        if all(hash(parse_entry(p)) == hash(parse_entry(q)) for p, q in d):
+                            c["history/step to a hash twin (distinct matrix, equal Python hash)"] += 1
+                        elif len(d) <= 2:
+                            c["history/step differing in <= 2 entries"] += 1
+                        else:
+                            c["history/step other (scaled, permuted, ...)"] += 1
+                    else:
+                        c["history/step other (scaled, permuted, ...)"] += 1
             else:
                 c["malformed"] += 1
         return dict(sorted(c.items()))
@@ -610,6 +810,13 @@ class C13(Prop):
                     alph_cache[key] = "[" + "; ".join(coq_ent(parse_entry(s)) for s in c["alph"]) + "]"
                 exprs.append((f"ge_block {alph_cache[key]} {c['r']}%nat {c['c']}%nat {c['start']}%N {c['count']}%nat", c["count"]))
                 slots.append([(i, c["count"])])
+            elif c["kind"] == "hist":
+                # the model is a pure function: a history is the list of the independent results
+                Ms = case_matrices(c)
+                for lo in range(0, len(Ms), 200):
+                    part = Ms[lo:lo + 200]
+                    exprs.append(("ge_list [" + ";\n ".join(coq_mat(M) for M in part) + "]", len(part)))
+                    slots.append([(i, len(part))])
             else:
                 M = [[parse_entry(s) for s in row] for row in c["rows"]]
                 mats.append(coq_mat(M))
@@ -633,7 +840,12 @@ class C13(Prop):
                 continue
             pos = 0
             for i, k in sl:
-                out[i] = v[pos:pos + k]
+                if isinstance(out[i], BaseException):
+                    pass
+                elif out[i] is None:
+                    out[i] = v[pos:pos + k]
+                else:                       # a long history is evaluated in several parts, in order
+                    out[i] = out[i] + v[pos:pos + k]
                 pos += k
         return out
 
@@ -687,6 +899,8 @@ class C13(Prop):
         return None
 
     def shrink(self, ctx, case, pred):
+        if case["kind"] == "hist":
+            return self._shrink_hist(case)
         if case["kind"] != "block":
             return case
         ob = _run_case_safe(case)
@@ -694,5 +908,22 @@ class C13(Prop):
             M = case_matrices(case)[ob["viol"][0]]
             small = {"kind": "mat", "rows": [[entry_str(e) for e in row] for row in M]}
             if pred(small):
+                return small
+        return case
+
+    @staticmethod
+    def _shrink_hist(case):
+        """Shortest history that still fails IN A NEW PROCESS (this process may carry state from the calls made so
+        far, so candidates are not judged here): the failing call alone, one earlier call + the failing call, the
+        prefix up to the failing call."""
+        v = fresh_viol(case)
+        if not v:
+            return case
+        idx, ms = v[0], case["mats"]
+        cands = [[ms[idx]]] + [[ms[j], ms[idx]] for j in range(idx - 1, -1, -1)][:40] + [ms[:idx + 1]]
+        cands += [[ms[idx], ms[j]] for j in range(idx + 1, len(ms))][:40]     # "altered by a later call"
+        for mats in cands:
+            small = {"kind": "hist", "mats": mats}
+            if len(mats) < len(ms) and fresh_viol(small):
                 return small
         return case
